@@ -71,6 +71,12 @@ def _reload_memory(s, fmt, merged):
     return from_dataframes(s.get_as_dataframes(save_merged=merged))
 
 
+def memory_clause(prefix, fmt):
+    # get_as_dataframes() is documented as "a dict of dataframes you can load as a schema"; on the unchanged tree it is not
+    # (own narrow label); the string entry points of XML / MediaWiki are checked by the general clause
+    return prefix + (".tsv.dataframes_in_memory" if fmt == "tsv" else ".rt.entry_points_agree")
+
+
 def roundtrip(s, formats, modes, tmp, tag, fails, prefix="C05", memory=True, only=None):
     """all part-A checks for one schema object; appends (clause, detail, observed, expected) to fails.
     only: optional set of clause suffixes to evaluate (narrow probes)"""
@@ -108,10 +114,10 @@ def roundtrip(s, formats, modes, tmp, tag, fails, prefix="C05", memory=True, onl
                     m = _reload_memory(s, fmt, merged)
                     d = U.diff(fp0, U.fingerprint(m))
                     if not (m == s) or d:
-                        fails.append((prefix + ".rt.entry_points_agree", where, {"__eq__": m == s, "fingerprint_diff": d},
+                        fails.append((memory_clause(prefix, fmt), where, {"__eq__": m == s, "fingerprint_diff": d},
                                       "string/dataframe entry point reloads the same schema as the file entry point"))
                 except Exception as e:  # noqa: BLE001
-                    fails.append((prefix + ".rt.entry_points_agree", where, "%s: %s" % (type(e).__name__, str(e)[:300]),
+                    fails.append((memory_clause(prefix, fmt), where, "%s: %s" % (type(e).__name__, str(e)[:300]),
                                   "in-memory save/load works"))
         if want("cross.formats_agree"):
             fmts = sorted(loaded)
@@ -227,7 +233,16 @@ def run_edit_case(version, form, case_seed, tmp):
         fails.append(("C05.edit.applied", {}, bad[:4], "loaded schema carries exactly the generated nodes/attributes/descriptions"))
     partnered = inv.partnered
     modes = (True, False) if partnered else ((True,) if case_seed % 2 else (False,))
-    roundtrip(e, ("xml", "mediawiki", "tsv"), modes, tmp, "e%d" % case_seed, fails, memory=(case_seed % 5 == 0))
+    rt_fails = []
+    roundtrip(e, ("xml", "mediawiki", "tsv"), modes, tmp, "e%d" % case_seed, rt_fails, memory=(case_seed % 5 == 0))
+    # input shape with a known loss on the unchanged tree: a library unit added to a unit class of the standard schema,
+    # saved unmerged as TSV (predicate on the generated input only)
+    lib_unit_in_std_class = partnered and any(sp["kind"] == "units" and sp.get("unit_class") in inv.unit_classes for sp in specs)
+    for clause, where, observed, expected in rt_fails:
+        tsv_unmerged = where.get("save_merged") is False and (where.get("format") == "tsv" or "tsv" in where.get("formats", []))
+        if lib_unit_in_std_class and tsv_unmerged and clause in ("C05.rt.tsv_equal", "C05.cross.formats_agree"):
+            clause = "C05.tsv.unmerged_library_unit_in_standard_class"
+        fails.append((clause, where, observed, expected))
     return fails, ops, len(specs)
 
 
